@@ -154,20 +154,23 @@ impl SyncBlocker {
         })
     }
 
+    // unparked/release form a store-then-load (Dekker) handshake between the waiter
+    // that gives up and the waker: all four accesses must be SeqCst, with
+    // Release/Acquire both sides can read the old value and the wake-up is lost
     #[inline]
     pub fn is_unparked(&self) -> bool {
-        self.unparked.load(Ordering::Acquire)
+        self.unparked.load(Ordering::SeqCst)
     }
     // set the Flag for the release action
     #[inline]
     pub fn set_release(&self) {
-        self.release.store(true, Ordering::Release);
+        self.release.store(true, Ordering::SeqCst);
     }
 
     // take the release Flag
     #[inline]
     pub fn take_release(&self) -> bool {
-        self.release.swap(false, Ordering::Acquire)
+        self.release.swap(false, Ordering::SeqCst)
     }
 
     #[inline]
@@ -178,6 +181,6 @@ impl SyncBlocker {
     #[inline]
     pub fn unpark(&self) {
         self.blocker.unpark();
-        self.unparked.store(true, Ordering::Release);
+        self.unparked.store(true, Ordering::SeqCst);
     }
 }
